@@ -60,7 +60,7 @@ class Scheduler:
         return [None] * len(tasks)
 
 
-def make_input(rng, d, chunk, max_wf, kind=None, ns=None):
+def make_input(rng, d, chunk, max_wf, kind=None, ns=None, trim=None):
     kind = kind or str(rng.choice(["3B2", "NP2.4"]))
     ns = ns or int(rng.integers(12000, 30000))
     if rng.random() < 0.5:
@@ -105,7 +105,8 @@ def make_input(rng, d, chunk, max_wf, kind=None, ns=None):
     # spike #0 of the sorted train is a VALID spike (the very first spike of the session can be a good one)
     o = np.argsort(times, kind="stable")
     times, clus, chans = times[o], clus[o], chans[o]
-    if rng.random() < 0.7:
+    # (trim=False keeps the spikes lying exactly ON the first margin, which necessarily precede every valid spike)
+    if (rng.random() < 0.7) if trim is None else trim:
         first_valid = int(np.flatnonzero((times > lo) & (times < hi))[0])
         times, clus, chans = times[first_valid:], clus[first_valid:], chans[first_valid:]
     return b, rec, times, clus, chans
@@ -229,7 +230,7 @@ def run_case(case):
         if cls == "extract":
             chunk = case["chunk"]
             max_wf = int(rng.choice([1, 4, 16, 64]))
-            b, rec, times, clus, chans = make_input(rng, d, chunk, max_wf)
+            b, rec, times, clus, chans = make_input(rng, d, chunk, max_wf, trim=case["seed"] % 3 != 1)      # every third extraction keeps the spikes ON the first margin
             use_c = bool(rng.integers(0, 2))
             if use_c:
                 sr0 = spikeglx.Reader(b)
